@@ -320,6 +320,72 @@ func C13(tier string) int {
 		})
 	}
 
+	// ---- overwrites: a list written over an earlier list reads back as the set of the NEW list, whether
+	// the first write was committed before or happened earlier in the same transaction; both setters
+	setOf := func(l []string) []string {
+		m := map[string]bool{}
+		for _, e := range l {
+			m[e] = true
+		}
+		var out []string
+		for e := range m {
+			out = append(out, e)
+		}
+		sort.Strings(out)
+		return out
+	}
+	for _, first := range lists {
+		if len(first) > 2 {
+			continue
+		}
+		for _, second := range lists {
+			first, second := first, second
+			ws := setOf(second)
+			for _, setter := range []string{"SetStringList", "GetAndSetStringList"} {
+				setter := setter
+				put := func(b *boltz.TypedBucket, l []string) {
+					if setter == "SetStringList" {
+						b.SetStringList("f", l, nil)
+					} else {
+						b.GetAndSetStringList("f", l, nil)
+					}
+				}
+				for _, sameTx := range []bool{false, true} {
+					what := fmt.Sprintf("%s %q then %q sameTx=%v", setter, first, second, sameTx)
+					rep.Count("evaluations", 1)
+					rep.Outcome("string-list-overwrite")
+					var got []string
+					err := d.db.Update(nil, func(ctx boltz.MutateContext) error {
+						b, err := boltz.GetOrCreatePath(ctx.Tx(), "root").EmptyBucket("c13")
+						if err != nil {
+							return err
+						}
+						put(b, first)
+						if sameTx {
+							put(b, second)
+						}
+						return b.GetError()
+					})
+					if err == nil && !sameTx {
+						err = d.db.Update(nil, func(ctx boltz.MutateContext) error {
+							b := boltz.Path(ctx.Tx(), "root", "c13")
+							put(b, second)
+							return b.GetError()
+						})
+					}
+					if err == nil {
+						err = d.db.View(func(tx *bbolt.Tx) error { got = boltz.Path(tx, "root", "c13").GetStringList("f"); return nil })
+					}
+					if err != nil {
+						fail("string-list-overwrite", what, "failed: "+err.Error())
+					} else if strings.Join(got, "\x01") != strings.Join(ws, "\x01") || len(got) != len(ws) {
+						fail("string-list-overwrite", what, fmt.Sprintf("%s: read back %q, want sorted set %q", what, got, ws))
+					}
+				}
+			}
+		}
+	}
+
 	// ---- containers: all value trees
 	tv := time.Date(2020, 2, 29, 23, 30, 0, 0, est)
 	leaves := []interface{}{"a", "", int64(7), int32(3), 2.5, true, tv, nil}
